@@ -15,7 +15,7 @@ pub fn def() -> PropDef {
         check,
         nontrivial,
         rule: "1-4 clients submitting through all handle kinds while 1-3 stop requests (Addr::stop, halt, WeakAddr::try_stop/try_halt, Context::stop, OwningAddr::consume/consume_sync) are issued from any client at random positions; awaiters (address clones, halt, join) created before and after termination; stopped() suspends 0-2 times; a fraction of runs fail instead (started error, timeout failure, panic); x seeded schedules; non-trivial = a submission from another client was in flight or issued between the first stop request and the end of the actor; distinct = distinct order of client-op and callback events",
-        needed_probes: &["c04_awaiter_checked", "c04_after_stop_checked", "c04_before_stop_checked", "c04_late_clone_awaited", "c04_failed_termination_awaited"],
+        needed_probes: &["c04_awaiter_checked", "c04_after_stop_checked", "c04_before_stop_checked", "c04_call_before_stop_checked", "c04_late_clone_awaited", "c04_failed_termination_awaited"],
         quick_runs: 200_000,
         thorough_runs: 2_000_000,
         block: 1,
@@ -142,6 +142,25 @@ pub fn check(v: &View) -> Vec<Violation> {
                         if handled(id).is_none_or(|c| c.exit.is_none()) {
                             out.push(violation(P, "accepted-before-stop-not-handled", &format!("{:?}", o.hk.unwrap()), format!("actor {aidx}: message {id} was accepted at seq {} before the first stop request (seq {fi}) but never handled", o.end.unwrap())));
                         }
+                    }
+                }
+            }
+        }
+        // A': ... and "its call returns Ok": a call whose message was in the mailbox before any
+        // stop request was issued (begun earlier through a strong handle on a path that does not
+        // wait for space, and not given up by its client) is answered, however late its caller
+        // gets to look at the answer
+        if let (Some(fi), false, None) = (first_inv, failed, spec.effective_timeout()) {
+            if a.dead.is_some() && graceful && !spec.entry.on_stream() {
+                for o in v.ops.iter().filter(|o| o.target == Some(aidx) && matches!(o.inner, Op::Call { .. }) && o.begin < fi && o.ended() && !o.abandoned() && !o.skipped()) {
+                    let Some(k) = o.hk else { continue };
+                    let never_waits = spec.effective_mailbox().is_none() || matches!(k, HKind::Addr | HKind::Owning);
+                    if !k.strong() || !never_waits {
+                        continue;
+                    }
+                    crate::log::probe("c04_call_before_stop_checked");
+                    if !matches!(o.res, Some(Res::Reply(_))) {
+                        out.push(violation(P, "call-before-stop-not-ok", &format!("{k:?}"), format!("actor {aidx}: call {:?} was submitted at seq {} before the first stop request (seq {fi}) and the actor terminated gracefully, but the call returned {:?}", o.msg_id(), o.begin, o.res)));
                     }
                 }
             }
